@@ -107,7 +107,14 @@ class IndiMessage:
         return res
 
     def __eq__(self, other):
-        return other.__class__ == self.__class__ and self.to_dict() == other.to_dict()
+        return (
+            other.__class__ == self.__class__
+            and self.to_dict() == other.to_dict()
+            and self._children_classes() == other._children_classes()
+        )
+
+    def _children_classes(self):
+        return [child.__class__ for child in getattr(self, "children", None) or ()]
 
 
 @IndiMessage.register_message
